@@ -197,6 +197,14 @@ def extra_cases(rng, tier):
     add("arctan2", "broadcast, all quadrants", (lambda m, a, b: m.arctan2(a, b)), [R.distinct(rng, (2, 3)), R.distinct(rng, (3,))], [0, 1], False)
     add("mod", "negative operands", (lambda m, a, b: m.mod(a, b)), [onp.array([-3.5, 2.5, -1.25, 4.75]), onp.array([2.0, -2.0, -1.0, 1.5])], [0, 1], False)
     add("true_divide", "broadcast", (lambda m, a, b: m.true_divide(a, b)), [R.distinct(rng, (2, 3)), R.positive(rng, (3,))], [0, 1], False)
+    # ---- (0h) stacks of matrices with 1-D right-hand sides; differences past the end ----
+    def spd_stack2(k, n):
+        return onp.stack([(lambda a_: a_ @ a_.T + n * onp.eye(n))(R.distinct(rng, (n, n))) for _ in range(k)])
+    for k_ in (2, 3):
+        add("linalg.solve", "stack of %d matrices, 1-D right-hand side" % k_, (lambda m, a, b: m.linalg.solve(a, b)),
+            [spd_stack2(k_, 3), R.distinct(rng, (3,))], [0, 1], False)
+    for nn, sh in ((2, (1,)), (3, (2,)), (2, (2,)), (2, (1, 3)), (4, (3,))):
+        add("diff", "n=%d on shape %s (more differences than elements)" % (nn, sh), (lambda m, z, nn=nn: m.diff(z, n=nn, axis=0)), [R.iarr(rng, sh)], [0], False, modes=("rev",))
     # ---- (a) the same array object in two argument positions: the derivative is the sum over both positions ----
     v4 = R.distinct(rng, (4,))
     p4 = R.positive(rng, (4,))
